@@ -788,7 +788,7 @@ def compile_pat(p):
     i = 0
     while i < len(p):
         j = p.find("}", i) if p[i] == "{" else -1
-        if p[i] == "{" and j > 0 and re.match(r"^\*?[A-Za-z_][A-Za-z_0-9]*$|^\*$", p[i + 1:j]) \
+        if p[i] == "{" and j > 0 and re.match(r"^\*?[a-z_][A-Za-z_0-9]*$|^\*$", p[i + 1:j]) \
                 and p[i + 1:j] not in ("break", "continue", "return", "true", "false", "self"):
             name = p[i + 1:j]
             if name.startswith("*"):
@@ -813,6 +813,17 @@ def compile_pat(p):
     rx = re.compile("^" + "".join(out) + "$")
     _pat_cache[p] = rx
     return rx
+
+
+def find_pat(text, pat):
+    """Search a placeholder pattern anywhere inside a canonical string (placeholders bind within the pattern)."""
+    key = ("find", pat)
+    rx = _pat_cache.get(key)
+    if rx is None:
+        inner = compile_pat(pat).pattern
+        rx = re.compile(inner[1:-1])
+        _pat_cache[key] = rx
+    return rx.search(text)
 
 
 def pat_match(p, s):
